@@ -83,3 +83,9 @@ Proof.
   - rewrite H. reflexivity.
 Qed.
 Print Assumptions leaf_partition_ok.
+
+(** The framing theorem, stated of the framer as translated from the current source. *)
+From CP Require Import Spec.ChartSpec Spec.C06 Properties.C06.
+Corollary C06_frame_on_translated_source :
+  forall c secs, cfg_ok_chart c = true -> wf_secs secs -> leaf_partition c (lines_of secs) = Ok secs.
+Proof. intros c secs H1 H2. rewrite leaf_partition_ok. exact (C06_frame c secs H1 H2). Qed.
